@@ -469,6 +469,16 @@ func (c *vrChain) GetCFilter(hash chainhash.Hash, _ wire.FilterType,
 	g, rep := c.gate("CF", id)
 	if rep.shutdown || rep.fail || id < 0 {
 		g.res = "fail"
+		// A block of the current chain whose filter no peer delivered: the
+		// error value ChainService.GetCFilter returns then (query.go).
+		if rep.fail && !rep.shutdown && id >= 0 {
+			c.mu.Lock()
+			_, on := c.onChain(id)
+			c.mu.Unlock()
+			if on {
+				return nil, ErrFilterFetchFailed
+			}
+		}
 		// like ChainService.GetCFilter, never the bare headerfs sentinel
 		return nil, fmt.Errorf("verif: unable to get filter for %v: %v", hash, errVr)
 	}
